@@ -18,9 +18,21 @@ from . import common, extract, runner, tlc
 PID = "C08"
 
 
+# (∆Ŀ stays excluded: with a list on top it is the LCM OF the list, not an element-wise operation; ∆f has a function
+#  of its own since the repair of its vectorisation)
+TEMPLATE_KEYS = {"d": ["int", "rat"], "Ḋ": ["int"], "Ė": ["int", "rat"]}
+
+
 def table():
     with open(os.path.join(common.VERIF, "data", "vectorising.json"), encoding="utf-8") as f:
-        return json.load(f)
+        t = json.load(f)
+    # the documented-vectorising elements whose table entry is a hand-written template are run through that template
+    for e in list(t["excluded"]):
+        if e["key"] in TEMPLATE_KEYS and "hand-written template" in e["reason"]:
+            t["excluded"].remove(e)
+            t["included"].append({"key": e["key"], "arity": e.get("arity", 2 if e["key"] in ("Ḋ", "∆Ŀ") else 1),
+                                  "kinds": TEMPLATE_KEYS[e["key"]], "name": "(template)", "nostr": True})
+    return t
 
 
 def tagged(v, depth=0):
@@ -87,12 +99,29 @@ def call(fn, args):
     return common.with_alarm(lambda _: tagged(vyxalify(fn(*args, ctx=Context()))), None, 5)
 
 
+def run_predecessor(pkey):
+    """another element used just before in the same process (its result is dropped): what an element does to a
+    list must not depend on what ran earlier"""
+    import vyxal.elements as E
+    from vyxal.context import Context
+
+    try:
+        fn = getattr(E, case_fn(pkey))
+        n = E.elements[pkey][1]
+        args = [[4, 6, 9], 2, 1][: n if isinstance(n, int) and n > 0 else 1]
+        common.with_alarm(lambda _: tagged(fn(*args, ctx=Context())), None, 3)
+    except BaseException:  # noqa: BLE001
+        pass
+
+
 def observe(case):
-    key, ar, a, b, lazy = case
+    key, ar, a, b, lazy = case[:5]
+    if len(case) > 5:
+        run_predecessor(case[5])
     import vyxal.elements as E
 
     name = case_fn(key)
-    fn = getattr(E, name)
+    fn = getattr(E, name) if name else template_fn(key)
     la = leaves(a, []) if isinstance(a, list) else [a]
     lb = (leaves(b, []) if isinstance(b, list) else [b]) if ar == 2 else []
     tab = []
@@ -139,12 +168,33 @@ def observe(case):
 _FN = {}
 
 
+def template_fn(key):
+    """an element whose table entry is a hand-written template (no single function): the template itself is run
+    on a stack holding the arguments; its result is what it leaves on top"""
+    import vyxal.elements as E
+
+    code = E.elements[key][0]
+
+    def run(*args, ctx=None):
+        ns = runner.fresh_ns(stack=list(args), ctx=ctx)
+        n0 = len(args)
+        exec(code, ns)
+        st = ns["stack"]
+        if len(st) != 1:
+            raise ValueError(f"template left {len(st)} values for {n0} arguments")
+        return st[0]
+
+    return run
+
+
 def case_fn(key):
     if not _FN:
         elems, _ = extract.element_table()
         for e in elems:
             if e["fn"]:
                 _FN[e["key"]] = e["fn"]
+            elif e["key"] in TEMPLATE_KEYS:
+                _FN[e["key"]] = None
     return _FN[key]
 
 
@@ -205,6 +255,13 @@ def main(tier):
     tb = table()
     per = 40 if tier == "quick" else 200
     cs = []
+    preds = []
+    for k in [e["key"] for e in tb["included"]] + ["G", "g", "↑", "↓", "s", "U", "ṡ", "Ṡ", "∑", "Π"]:
+        try:
+            case_fn(k)
+            preds.append(k)
+        except KeyError:
+            pass
     for ent in tb["included"]:
         key, ar, kinds = ent["key"], ent["arity"], ent["kinds"]
         try:
@@ -225,7 +282,7 @@ def main(tier):
                 cs.append((key, 2, a, b, lazy))
         # string leaves for EVERY element (a leaf call the element does not support leaves the case unevaluated),
         # and a list paired with its own duplicate (eager, and lazy with the duplicate reading through the original)
-        for i in range(per // 2 if not uses_randomness(case_fn(key)) else 0):
+        for i in range(per // 2 if not ent.get("nostr") and not uses_randomness(case_fn(key)) else 0):
             depth = rng.choice([0, 1, 1, 2])
             kk = ["str", "str", "int"]
             if ar == 1:
@@ -239,6 +296,10 @@ def main(tier):
             for i in range(max(2, per // 8)):
                 a = rand_list(rng, rng.choice([0, 1]), kinds)
                 cs.append((key, 2, a, a, "coupled" if i % 2 == 0 else False))
+        # every (predecessor, element) pair once: the predecessor runs first in the same process
+        for pk in preds:
+            a = rand_list(rng, rng.choice([0, 1]), kinds) or [1, 2]
+            cs.append((key, ar, a, scalars(rng, rng.choice(kinds)) if ar == 2 else None, False, pk))
     with common.Scratch(PID) as s:
         mc = tlc.model_check(s, "MC_Vector", cfg="MC_Vector", workers=16)
         if not mc["ok"]:
